@@ -910,4 +910,86 @@ theorem syncPod_step (k : Kern) (ps : List NetPol) (L : List Pod) (q : Pod) (inv
         unfold hooks; rw [d4 _ (by simp)]
       rw [this]; exact c6
 
+/-! ### the loop over the pods -/
+
+theorem syncPods_loop (ps : List NetPol) (L : List Pod) (hL : (L.map (·.hash)).Nodup) :
+    ∀ (l pre : List Pod) (acc : Kern × List Fail), L = pre ++ l → acc.2 = [] → PodInv ps L acc.1.tbl →
+      (∀ q ∈ pre, PodOK ps acc.1.tbl q) →
+      let res := l.foldl (fun (acc : Kern × List Fail) q =>
+        ((syncPod acc.1 ps q).1, acc.2 ++ (syncPod acc.1 ps q).2)) acc
+      res.2 = [] ∧ res.1.sets = acc.1.sets ∧ PodInv ps L res.1.tbl ∧ (∀ q ∈ L, PodOK ps res.1.tbl q) ∧
+      ∀ h, Tbl.get res.1.tbl (.plcy h) = Tbl.get acc.1.tbl (.plcy h) := by
+  intro l
+  induction l with
+  | nil =>
+    intro pre acc hLe hf inv hpre
+    simp only [List.foldl_nil]
+    refine ⟨hf, by first | rfl | trivial, inv, fun q hq => hpre q ?_, by intros; first | rfl | trivial⟩
+    rw [hLe] at hq; simpa using hq
+  | cons q rest ih =>
+    intro pre acc hLe hf inv hpre
+    have hq : q ∈ L := by rw [hLe]; simp
+    obtain ⟨s1, s2, st⟩ := syncPod_step acc.1 ps L q inv hq hL
+    simp only [List.foldl_cons]
+    have hne : ∀ q' ∈ pre, q'.hash ≠ q.hash := by
+      intro q' hq' e
+      rw [hLe, List.map_append, List.map_cons, List.nodup_append] at hL
+      exact hL.2.2 q'.hash (List.mem_map.mpr ⟨q', hq', rfl⟩) q.hash (by simp) e
+    obtain ⟨r1, r2, r3, r4, r5⟩ := ih (pre ++ [q]) ((syncPod acc.1 ps q).1, acc.2 ++ (syncPod acc.1 ps q).2)
+      (by rw [hLe]; simp) (by simp [hf, s1]) (st.inv inv hq hL)
+      (by
+        intro q' hq'
+        rcases List.mem_append.mp hq' with h | h
+        · exact st.frame (hne q' h) (hpre q' h)
+        · simp at h; subst h; exact st.ok)
+    exact ⟨r1, by rw [r2]; exact s2, r3, r4, fun h => by
+      rw [r5 h]; exact st.other _ (by simp) (by simp) (by simp) rfl⟩
+
+/-- the pods of the cluster on this node -/
+def localPods (c : Cluster) (node : String) : List Pod := c.pods.filter (fun q => q.node == node)
+
+/-- THE LOOP OVER ALL LOCAL PODS, from any table satisfying the invariant: no failure, ipsets untouched, the invariant
+    holds again, and every local pod's chain and hooks are as compiled -/
+theorem syncPods_spec (k : Kern) (c : Cluster) (ps : List NetPol) (node : String)
+    (hL : ((localPods c node).map (·.hash)).Nodup) (inv : PodInv ps (localPods c node) k.tbl) :
+    (syncPods k c ps node).2 = [] ∧ (syncPods k c ps node).1.sets = k.sets ∧
+    PodInv ps (localPods c node) (syncPods k c ps node).1.tbl ∧
+    (∀ q ∈ localPods c node, PodOK ps (syncPods k c ps node).1.tbl q) ∧
+    ∀ h, Tbl.get (syncPods k c ps node).1.tbl (.plcy h) = Tbl.get k.tbl (.plcy h) := by
+  have := syncPods_loop ps (localPods c node) hL (localPods c node) [] (k, []) (by simp) rfl inv
+    (fun _ h => by cases h)
+  exact this
+
+/-- exactness in closed form: which GLX-POD chains exist and what they hold; which hook rules exist -/
+theorem pods_exact_of_inv {ps : List NetPol} {L : List Pod} {t : Table} (inv : PodInv ps L t)
+    (hL : (L.map (·.hash)).Nodup) (hok : ∀ q ∈ L, PodOK ps t q) :
+    (∀ h rs, Tbl.get t (.pod h) = some rs ↔ ∃ q ∈ L, q.hash = h ∧ activePod ps q = true ∧ rs = podChain ps q) ∧
+    (∀ r, r ∈ hooks t .glxIngress ↔ ∃ q ∈ L, hookRule true q = [r] ∧ hookedIngress ps q = true) ∧
+    (∀ r, r ∈ hooks t .glxEgress ↔ ∃ q ∈ L, hookRule false q = [r] ∧ hookedEgress ps q = true) := by
+  refine ⟨fun h rs => ?_, fun r => ?_, fun r => ?_⟩
+  · constructor
+    · intro hg
+      obtain ⟨q, hq, hh, _⟩ := inv.podchains h (chainExists_iff.mpr ⟨rs, hg⟩)
+      subst hh
+      have := (hok q hq).1
+      rw [hg] at this
+      cases ha : activePod ps q
+      · simp [ha] at this
+      · simp only [ha, if_true, Option.some.injEq] at this
+        exact ⟨q, hq, rfl, ha, this⟩
+    · rintro ⟨q, hq, rfl, ha, rfl⟩
+      rw [(hok q hq).1, ha]; rfl
+  · constructor
+    · intro hr
+      obtain ⟨q, hq, hrq, _⟩ := inv.hooksI r hr
+      exact ⟨q, hq, hrq, ((hok q hq).2.1 r hrq).mp hr⟩
+    · rintro ⟨q, hq, hrq, hh⟩
+      exact ((hok q hq).2.1 r hrq).mpr hh
+  · constructor
+    · intro hr
+      obtain ⟨q, hq, hrq, _⟩ := inv.hooksE r hr
+      exact ⟨q, hq, hrq, ((hok q hq).2.2 r hrq).mp hr⟩
+    · rintro ⟨q, hq, hrq, hh⟩
+      exact ((hok q hq).2.2 r hrq).mpr hh
+
 end Galaxy.Policy
